@@ -1271,6 +1271,123 @@ pub fn run(ctx: &mut Ctx) {
         }
     }
 
+    // ---- records that came in through the annotation files (both loaders): every gene / disease of the files is
+    // found by its id and (genes) by its symbol, nothing else is
+    {
+        let symbols = ["-", "A-1", "C1orf2", "GENE", "g"];
+        let dnames = ["Disease one", "MARFAN SYNDROME; MFS", "X-linked thing, type 2", "Brachydactyly-syndactyly"];
+        let gene_ids = [1u32, 77, 100_132_596, u32::MAX];
+        let omim_ids = [1u32, 154_700, 600_001];
+        let orpha_ids = [1u32, 77, 558];
+        let term_of = [10u32, 20, 10, 1];
+        ctx.space("records/loaded-from-annotation-files", &format!("terms 1, 118, 10, 20; genes {gene_ids:?} with every rotation of the symbols {symbols:?} (the symbol `-` occurs in the published gene file), OMIM {omim_ids:?} and ORPHA {orpha_ids:?} with every rotation of the names {dnames:?}, one row each; loaded by from_standard and by from_standard_transitive: every id +-1, every symbol and 8 name queries"));
+        for rot in 0..symbols.len() {
+            for transitive in [false, true] {
+                if !ctx.take() {
+                    continue;
+                }
+                ctx.state();
+                ctx.nontrivial();
+                let mut f = Facts { terms: vec![Facts::term(1, "All"), Facts::term(118, "Phenotypic abnormality"), Facts::term(10, "T10"), Facts::term(20, "T20")], edges: vec![(118, 1), (10, 118), (20, 118)], anns: vec![], version: (2024, 2, 29) };
+                let (mut genes, mut omim, mut orpha) = (BTreeMap::new(), BTreeMap::new(), BTreeMap::new());
+                for (i, id) in gene_ids.iter().enumerate() {
+                    let name = symbols[(i + rot) % symbols.len()];
+                    f.anns.push(Facts::ann(Kind::Gene, *id, name, Some(term_of[i])));
+                    genes.insert(*id, name.to_string());
+                }
+                for (i, id) in omim_ids.iter().enumerate() {
+                    let name = dnames[(i + rot) % dnames.len()];
+                    f.anns.push(Facts::ann(Kind::Omim, *id, name, Some(term_of[i])));
+                    omim.insert(*id, name.to_string());
+                }
+                for (i, id) in orpha_ids.iter().enumerate() {
+                    let name = dnames[(i + rot + 1) % dnames.len()];
+                    f.anns.push(Facts::ann(Kind::Orpha, *id, name, Some(term_of[i + 1])));
+                    orpha.insert(*id, name.to_string());
+                }
+                let mut key_ids: Vec<u32> = vec![0, 2, 10, 20];
+                for id in gene_ids.iter().chain(&omim_ids).chain(&orpha_ids) {
+                    key_ids.extend([id.wrapping_sub(1), *id, id.wrapping_add(1)]);
+                }
+                key_ids.sort_unstable();
+                key_ids.dedup();
+                let symbol_keys: Vec<String> = symbols.iter().map(|s| s.to_string()).chain(["A".to_string(), "--".to_string(), "gene".to_string(), "G".to_string()]).collect();
+                let queries: Vec<String> = ["Disease", "MARFAN", "-", "type 2", "zzz", "syndactyly", "; ", "one"].iter().map(|s| s.to_string()).collect();
+                ctx.exec();
+                ctx.transitions(f.n_steps() + (key_ids.len() + symbol_keys.len() + queries.len()) as u64);
+                let loader = if transitive { "Ontology::from_standard_transitive" } else { "Ontology::from_standard" };
+                match crate::jax::load(&crate::jax::render(&f, &crate::jax::JaxOpts::default()), transitive) {
+                    Ok(Ok(ont)) => {
+                        ctx.validated();
+                        let mut strict = false;
+                        match guard(|| check_records(&ont, &genes, &omim, &orpha, &key_ids, &symbol_keys, &queries, &mut strict)) {
+                            Ok(None) => {}
+                            Ok(Some((site, sig, det))) => ctx.violation(&site, &format!("[loaded from the annotation files] {sig}"), json!({"facts": f.to_json(), "loader": loader, "difference": det})),
+                            Err(p) => ctx.violation("Ontology lookups", "panics", json!({"facts": f.to_json(), "loader": loader, "observed": p})),
+                        }
+                    }
+                    other => ctx.violation(loader, "rejects valid JAX files", json!({"facts": f.to_json(), "observed": format!("{:?}", other.map(|r| r.map(|_| ())))})),
+                }
+                ctx.sample(|| json!({"facts": f.to_json(), "loader": loader}));
+            }
+        }
+        crate::jax::cleanup();
+    }
+
+    // ---- lookup keys given in their textual form: the key `HP:<digits>` that the crate itself prints for an id
+    // names that id and no other (a reader may refuse a form it does not accept; it must not name another term)
+    {
+        ctx.space("keys/textual-form", "every border key (2^k-1, 2^k, 2^k+1, 10^7 +- 3, 10^8 - 1, 10^8, 10^9, u32::MAX - 1, u32::MAX, ...) and every multiple of 10^6 and of 10^7 in the u32 range, +-1: HpoTermId::try_from of the text the crate prints for the id (and of the zero-padded `HP:%07d` form) is refused or yields exactly that id; on the ontology {1, 118, 1000000, 4294967, 9999999} the lookup through the parsed key finds a term if and only if that id was added");
+        if ctx.take() {
+            ctx.state();
+            ctx.nontrivial();
+            let mut keys = border_keys();
+            for m in 0..=4294u32 {
+                let x = m * 1_000_000;
+                keys.extend([x.wrapping_sub(1), x, x.wrapping_add(1)]);
+            }
+            keys.extend([1_000_000, 4_294_967, 429_496, 42_949_672, 999_999, 9_999_999, 10_000_000, 10_000_001, 10_000_118, 20_000_001, 4_290_000_118]);
+            keys.sort_unstable();
+            keys.dedup();
+            let ids = vec![1u32, 118, 1_000_000, 4_294_967, 9_999_999];
+            let seq: Vec<(u32, String)> = ids.iter().map(|i| (*i, format!("T{i}"))).collect();
+            let (f, added) = term_facts(&seq);
+            match drive::build(&f, Mode::Minimal) {
+                Err(e) => ctx.violation("Builder::new_term", "construction fails", json!({"term_ids_added": ids, "observed": e})),
+                Ok(ont) => {
+                    let res = guard(|| -> V {
+                        for &k in &keys {
+                            let printed = hpo::HpoTermId::from_u32(k).to_string();
+                            let padded = format!("HP:{k:07}");
+                            for text in [printed, padded] {
+                                if let Ok(id) = hpo::HpoTermId::try_from(text.as_str()) {
+                                    if id.as_u32() != k {
+                                        return Some(("HpoTermId::try_from(&str)".into(), "the textual key of one id is read as another id".into(), format!("key {text:?} (id {k}) is read as id {}", id.as_u32())));
+                                    }
+                                    let found = ont.hpo(id).map(|t| t.id().as_u32());
+                                    let want = if added.contains_key(&k) { Some(k) } else { None };
+                                    if found != want {
+                                        return Some(("Ontology::hpo".into(), "lookup through the textual key: wrong presence".into(), format!("key {text:?}: found {found:?}, added {want:?}")));
+                                    }
+                                }
+                            }
+                        }
+                        None
+                    });
+                    ctx.execs(2 * keys.len() as u64);
+                    ctx.validateds(2 * keys.len() as u64);
+                    ctx.transitions(2 * keys.len() as u64);
+                    match res {
+                        Ok(None) => {}
+                        Ok(Some((site, sig, det))) => ctx.violation(&site, &sig, json!({"term_ids_added": ids, "difference": det})),
+                        Err(p) => ctx.violation("HpoTermId::try_from(&str)", "panics", json!({"term_ids_added": ids, "observed": p})),
+                    }
+                }
+            }
+            ctx.sample(|| json!({"term_ids_added": [1, 118, 1_000_000, 4_294_967, 9_999_999], "keys": "textual"}));
+        }
+    }
+
     let n = take_ascending_retries();
     if n > 0 {
         ctx.bump("refused: ids inside a record not ascending, the same facts with ascending lists accepted", n);
